@@ -380,6 +380,10 @@ def run(F, res, tier):
     module_names_are_positional(F, res)
     qualified_types_do_not_fall_back(F, res)
     lowering_visits_every_child(F, res)
+    name_tables_have_one_duplicate_policy(F, res)
+    # a resolver left pointing at another module resolves the names that follow in that module (C09/Y4)
+    from rules import c09 as _c09
+    _c09.resolver_swaps(F, res, rule="S17")
     # ---- S4
     rn = F.fn("ide::def::resolver::Resolver::resolve_name")
     names = [(b, FL.short(callee(t) or callee_def(t))) for b, t in rn.calls()]
@@ -1083,3 +1087,28 @@ def lowering_visits_every_child(F, res, rule="S16"):
                % (node.rsplit("::", 1)[-1], bear), not missing, where="crates/ide/src/def/body.rs",
                how="never asked: %s" % missing if missing else "asked: %s" % sorted(called[node] & set(bear)))
     res.floor("AST node types the lowering looks into", m_, 15)
+
+
+def name_tables_have_one_duplicate_policy(F, res, rule="S18"):
+    """S18: a module may declare a name twice (an `@target(erlang)` / `@target(javascript)` pair, or an error the user is
+    about to fix). Which declaration the name then stands for must be the same everywhere it is asked: in the module's own
+    scope, for an importer, for a qualified use. The name tables of ModuleScope (values, types, modules) are written with the
+    overwriting `insert` only - the last declaration wins, as it does where resolve_import walks the declarations in order.
+    A keep-the-first write (`entry(..).or_insert(..)`) for one kind makes the declaring module and its importers bind the two
+    halves of one symbol differently: rename then edits only some of its uses."""
+    from lib import effects as EF
+    MS = "ide::def::scope::ModuleScope"
+    f = F.fn("ide::def::scope::module_scope_with_map_query")
+    n, bad = 0, []
+    for p_ in F.with_helpers(f.path, depth=2):
+        if not p_.startswith("ide::def::scope::") or p_ not in F.fns or not F.fns[p_].blocks:
+            continue
+        for e in EF.field_effects(F.fns[p_], MS):
+            if e["field"] in ("values", "types", "modules") and e["how"] in ("mutborrow", "assign"):
+                n += 1
+                c = FL.short(e.get("callee") or "")
+                if c.rsplit("::", 1)[-1] not in ("insert", "extend", "insert_full"):
+                    bad.append("%s.%s written through %s (line %s)" % ("ModuleScope", e["field"], c or e["how"], e.get("ln")))
+    res.ob(rule, "module-scope/last-declaration-wins", "every write to the name tables of a module scope overwrites (insert): a name declared twice stands "
+           "for its last declaration in the module itself and for every importer", n >= 6 and not bad, where=f.loc(),
+           how="writes to values/types/modules: %d; not an overwriting insert: %s" % (n, bad))
